@@ -40,6 +40,15 @@ class _SymbolicExpressionContainer(typing_extensions.Protocol[T_cov]):
         ...  # pragma: no cover
 
 
+def _snapshot_if_wrapper(it: typing.Iterable[T]) -> typing.Iterable[T]:
+    """Adding a node to an owning collection removes it from the collection
+    that held it before. When the elements to add are handed over as such a
+    collection ("move everything from there to here"), walk a copy of it."""
+    if isinstance(it, (ListWrapper, SetWrapper)):
+        return list(it)
+    return it
+
+
 class ListWrapper(typing.MutableSequence[T]):
     def __init__(self, *args: typing.Iterable[T]):
         self._data: typing.List[T] = []
@@ -142,7 +151,7 @@ class ListWrapper(typing.MutableSequence[T]):
     # extend is not in every version of Python 3, so list wrapper adds it here
     # itself.
     def extend(self, other: typing.Iterable[T]) -> None:
-        for v in other:
+        for v in _snapshot_if_wrapper(other):
             self.append(v)
 
     def reverse(self) -> None:
@@ -173,7 +182,7 @@ class SetWrapper(typing.MutableSet[T]):
     def __init__(self, *args: typing.Iterable[T]):
         self._data: typing.Set[T] = set()
         for arg in args:
-            for v in arg:
+            for v in _snapshot_if_wrapper(arg):
                 self.add(v)
 
     @classmethod
@@ -222,9 +231,16 @@ class SetWrapper(typing.MutableSet[T]):
     def __ior__(  # type: ignore
         self: _SetWrapperSelf, other: typing.AbstractSet[T]
     ) -> _SetWrapperSelf:
-        for value in other:
+        for value in _snapshot_if_wrapper(other):
             self.add(value)
         return self
+
+    def __ixor__(  # type: ignore
+        self: _SetWrapperSelf, other: typing.AbstractSet[T]
+    ) -> _SetWrapperSelf:
+        if other is not self and isinstance(other, SetWrapper):
+            other = set(other)
+        return super().__ixor__(other)  # type: ignore
 
     def pop(self) -> T:
         it = iter(self)
@@ -244,7 +260,7 @@ class SetWrapper(typing.MutableSet[T]):
     # For whatever reason, update isn't included as part of abc.MutableSet.
     def update(self, *others: typing.Iterable[T]) -> None:
         for other in others:
-            for v in other:
+            for v in _snapshot_if_wrapper(other):
                 self.add(v)
 
     def __str__(self) -> str:
